@@ -185,6 +185,10 @@ def scen_cfgline(wcfg):
             allowed.append(code)
     if wcfg.get('four_bytes_as', True) or las > 65535:
         allowed.append(65)
+    if wcfg.get('add_path'):
+        allowed.append(69)
+    if set(wcfg.get('afi_safi', ())) & {'vpnv4', 'vpnv6'}:
+        allowed.append(5)
     tick = wcfg.get('tick', 10.0)
     return {'hold': wcfg.get('hold', 60), 'tnum': wcfg.get('tnum', int(tick)), 'tden': wcfg.get('tden', 1), 'las_hi': las >> 16, 'las_lo': las & 0xffff,
             'caps': sorted(allowed), 'crt': int(wcfg.get('crt', 20) / tick), 'idle': int(wcfg.get('idle', 20) / tick)}
@@ -204,6 +208,10 @@ def run_scenarios(kind, tier, seed, workdir, procs=16):
         jobs = _in_child(_mk_c16, tier, seed)
     elif kind == 'C03':
         jobs = _in_child(_mk_c03, tier, seed)
+    elif kind == 'C12':
+        jobs = _in_child(_mk_c12, tier, seed)
+    elif kind == 'C01':
+        jobs = _in_child(_mk_c01, tier, seed)
     else:
         jobs = _c10_jobs(tier, seed)
     items = [(20000000 + i, j) for i, j in enumerate(jobs)]
@@ -246,6 +254,16 @@ def _mk_c10(tier, seed):
 def _mk_c16(tier, seed):
     import scenarios
     return scenarios.c16_jobs(tier, seed)
+
+
+def _mk_c01(tier, seed):
+    import scenarios
+    return scenarios.c01n_jobs(tier, seed)
+
+
+def _mk_c12(tier, seed):
+    import scenarios
+    return scenarios.c12md5_jobs(tier, seed)
 
 
 def _mk_c03(tier, seed):
